@@ -322,3 +322,69 @@ TABLE['C16'] = dict(
         ('partitions_spec', 'PG.partitionsOf_spec', '_get_partitions lists every configuration once'),
         ('unfold_spec', 'PG.unfoldConfig_spec', '_unfold lists exactly the configurations that fold to the given one'),
     ])
+
+TABLE['C17'] = dict(
+    imports=[A + 'CacheThm', A + 'Glue', A + 'MomentsThm'],
+    summary='Proved on the state-machine model of StateSpace caching (epoch, S, per-epoch cache, drop_S, drop_cache, first access of '
+            'states): for EVERY history of operations every read of S returns the matrix of the epoch in force, with caching on or off; '
+            'the number of recomputations is bounded; the repaired consumer (update_epoch before reading) is correct and the pre-fix '
+            'stale read is refuted by a kernel-checked 2-step history. Query procedures are sequences of these operations followed by '
+            'pure evaluation (code_accumulate_pointwise). Partial: process pools (imap order) are a runtime parameter.',
+    theorems=[
+        ('refinement', 'PG.Cache.C17_refinement', 'every answer of every history equals the cache-free specification'),
+        ('read_at', 'PG.Cache.C17_getS_at', 'the i-th read returns compute(epoch after the first i operations)'),
+        ('invariant', 'PG.Cache.inv_preserved', 'S and every cache entry are the true matrices of their epochs'),
+        ('cache_off', 'PG.Cache.C17_no_cache', 'same with caching disabled'),
+        ('cache_on', 'PG.Cache.C17_cache', 'fresh object with caching'),
+        ('recomputation_bound', 'PG.Cache.computations_bound_no_drop', 'without drops at most one computation per distinct epoch (+1 for states)'),
+        ('repaired_consumer', 'PG.Cache.repaired_consumer', 'update_epoch then read: always the consumer\'s own epoch'),
+        ('stale_read_defect', 'PG.Cache.stale_read_defect', 'pre-fix get_mutation_config on a shared state space read the other parameter set\'s matrix'),
+        ('queries_are_pure', 'PG.code_accumulate_pointwise', 'given the right matrices a query is a pure function of its arguments'),
+    ])
+
+TABLE['C18'] = dict(
+    imports=[A + 'SerializeThm'],
+    summary='Proved on the bookkeeping model with the codec as a parameter (decode (encode x) = some x): the loaded object answers every '
+            'statistic like the original whether or not it was computed before saving, saving leaves the original untouched, cycles are '
+            'idempotent. Partial by construction: jsonpickle/dill losslessness is the hypothesis the correspondence exercises.',
+    theorems=[
+        ('roundtrip', 'PG.Serialize.C18_roundtrip', 'save/load preserves configuration and every statistic'),
+        ('original_untouched', 'PG.Serialize.C18_original_untouched', 'to_json returns the original unchanged'),
+        ('idempotent', 'PG.Serialize.C18_idempotent', 'a second cycle is the identity'),
+        ('later_queries', 'PG.Serialize.compute_inv', 'statistics computed after loading keep agreeing'),
+    ])
+
+TABLE['C19'] = dict(
+    imports=[A + 'InferenceThm', A + 'CacheThm'],
+    summary='Proved with the optimiser as a parameter: _run stores the first minimum of the results, loss_inferred = min(loss_runs), the stored '
+            'point attains it; add_run keeps the lower loss, concatenates losses, any merge order gives the global minimum; bootstraps append one '
+            'row; create_run uses the given start values and rejects out-of-bounds ones (pre-fix variant refuted). Cache transparency is C17. '
+            'Partial: L-BFGS-B behaviour, recovery of generating parameters.',
+    theorems=[
+        ('best', 'PG.Inference.C19_best', 'after _run: first minimum, loss_inferred = min, params belong to it, loss_runs recorded'),
+        ('first_minimum', 'PG.Inference.bestOf_spec', 'Python min(key=...) semantics: first minimal element'),
+        ('merge', 'PG.Inference.C19_merge', 'merging runs in any order yields the global minimum and a permutation of the losses'),
+        ('merge_spec', 'PG.Inference.addRuns_spec', 'add_runs: losses concatenated, best = global minimum'),
+        ('merge_not_run', 'PG.Inference.addRun_not_run', 'adding a not-run object raises and changes nothing'),
+        ('bootstrap_rows', 'PG.Inference.C19_bootstrap_rows', 'each add_bootstrap appends exactly one row'),
+        ('create_run', 'PG.Inference.C19_create_run', 'explicit start values are used; out-of-bounds rejected'),
+        ('create_run_pinned_defect', 'PG.Inference.create_run_pinned_defect', 'the pre-fix create_run kept the parent\'s start values'),
+        ('cache_transparent', 'PG.Cache.C17_refinement', 'shared state spaces do not change answers'),
+    ])
+
+TABLE['C20'] = dict(
+    imports=[A + 'ValidateThm'],
+    summary='Proved on the model of the argument checks (order and boundary conditions mirrored): validate rejects exactly the invalid classes '
+            '(complete and sound), boundary members decided, the pre-fix recombination-rate route refuted. Documented exceptions: order-0 '
+            'accumulate returns ones before any check (not a listed class). Partial: the NaN clause is runtime exploration.',
+    theorems=[
+        ('complete', 'PG.Validate.C20_complete', 'every invalid request is rejected'),
+        ('sound', 'PG.Validate.C20_sound', 'valid requests are not rejected'),
+        ('exact', 'PG.Validate.validate_ok_iff', 'accepted iff not invalid'),
+        ('pinned_defect', 'PG.Validate.pinned_defect', 'pre-fix: negative recombination rate next to a LocusConfig was accepted'),
+        ('pinned_agrees_elsewhere', 'PG.Validate.pinned_agrees', 'the repair changes nothing else'),
+        ('boundary_model', 'PG.Validate.boundary_model', 'alpha in {1,2} accepted, psi in {0,1} rejected'),
+        ('boundary_times', 'PG.Validate.boundary_times', 'end = start accepted, end < start rejected'),
+        ('boundary_query', 'PG.Validate.boundary_query', 'quantile 0 and 1 accepted'),
+        ('order0_escapes', 'PG.Validate.order0_escapes', 'order-0 accumulation returns before any check (documented)'),
+    ])
